@@ -68,6 +68,18 @@ func specialScenarios() []specialScenario {
 		absRecipe{"bread rolls", []absIng{{"cal", 3}}}, absRecipe{"bread", []absIng{{"cal", 2}, {"cal extra", 1}}}, absRecipe{"soup, clear", []absIng{{"cal", 1}}}, absRecipe{"soup", []absIng{{"cal", 4}}},
 		absRecipe{"a!b", []absIng{{"fat", 1}}}, absRecipe{"a", []absIng{{"fat", 2}, {"fat (sat)", 1}}}, absRecipe{"a+b", []absIng{{"fat", 4}}}),
 		logPlus([]absIng{{"coffee/cup", 1}, {"coffee-decaf/cup", 2}, {"milk 2%/glass", 1}, {"milk/glass", 2}}, []absIng{{"ice.cream/cone", 1}, {"ice/cube", 4}, {"coffee/cup", 1}, {"a!b/c", 1}, {"a/c", 2}}))
+	// deep category paths (18, 20 and 34 segments; a fork at the bottom of the deepest one)
+	{
+		seg := func(n int) string {
+			var parts []string
+			for i := 1; i <= n; i++ {
+				parts = append(parts, fmt.Sprintf("l%02d", i))
+			}
+			return strings.Join(parts, "/")
+		}
+		add("names-deep-category-paths", true, bookPlus(absRecipe{seg(20) + "/apple", []absIng{{"cal", 2}}}),
+			logPlus([]absIng{{seg(20) + "/apple", 1}, {seg(20) + "/pear", 2}, {seg(17) + "/x", 1}}, []absIng{{seg(34) + "/deep", 1}, {seg(33) + "/fork", 2}, {seg(18), 1}}))
+	}
 	add("names-repeated-segment", true, specialBaseBook, logPlus([]absIng{{"tea/tea", 2}, {"bread/white/bread/slice", 1}}, []absIng{{"bread/white/bread/loaf", 1}, {"tea/tea/tea", 1}}))
 	name23, name30 := "cheese/gouda/aged/slice", "a/rather/long/name/of/30/chars"
 	add("names-lengths-around-the-columns", true, bookPlus(absRecipe{name30, []absIng{{"an element of 22 chars", 2}, {"cal", 1}}}),
@@ -99,7 +111,9 @@ func specialScenarios() []specialScenario {
 		{Date: "2021/02/25", Entries: []absIng{{"r1", 4}}}, {Date: "2021/01/25", Entries: []absIng{{"r1", 8}}}})
 	add("dates-far-away", true, specialBaseBook, absLog{
 		{Date: "1969/12/31", Entries: []absIng{{"r1", 1}}}, {Date: "1970/01/01", Entries: []absIng{{"u", 1}}},
-		{Date: "2000/02/29", Entries: []absIng{{"r2", 2}}}, {Date: "2038/01/19", Entries: []absIng{{"r1", 2}}}, {Date: "2262/04/12", Entries: []absIng{{"r1", 4}}}})
+		{Date: "2000/02/29", Entries: []absIng{{"r2", 2}}}, {Date: "2038/01/19", Entries: []absIng{{"r1", 2}}}, {Date: "2262/04/12", Entries: []absIng{{"r1", 4}}},
+		// (days further apart than a time.Duration can hold: about 292 years)
+		{Date: "0001/01/01", Entries: []absIng{{"r1", 8}}}, {Date: "1700/01/01", Entries: []absIng{{"u", 4}}}, {Date: "9999/12/31", Entries: []absIng{{"r1", 16}}}, {Date: "2021/01/24", Entries: []absIng{{"r1", 32}}}})
 	add("days-with-and-without-notes", true, specialBaseBook, absLog{
 		{Date: "2021/01/24", Entries: []absIng{{"r1", 1}}, Notes: []absNote{{"mood", "ok"}, {"", "50% done"}}},
 		{Date: "2021/01/25", Entries: []absIng{{"u", 2}}},
